@@ -449,7 +449,10 @@ func (s *c15Sched) waitFor(pred func() bool) {
 		s.cond.Wait()
 	}
 	if fired && !pred() && !s.aborted {
+		// one expired gate opens every gate of this run: a broken tree must not turn each of thousands of
+		// reads into a watchdog period
 		s.timeouts++
+		s.aborted = true
 	}
 	s.mu.Unlock()
 	tm.Stop()
@@ -846,7 +849,7 @@ type c15Result struct {
 }
 
 // c15StallTicks half-seconds without a byte read or a group delivered (longer than the gate watchdog) = stalled
-const c15StallTicks = 24
+const c15StallTicks = 20
 
 func (r *c15Run) signature() [3]uint64 {
 	r.mu.Lock()
@@ -975,7 +978,7 @@ func c15RunCase(rec *ev.Recorder, car *c15Car, c c15Case) c15Result {
 				if idle == c15StallTicks {
 					r.sched.abort() // open every gate of the harness
 				}
-				if idle >= c15StallTicks+8 {
+				if idle >= c15StallTicks+4 {
 					break wait
 				}
 			}
